@@ -73,7 +73,7 @@ RenewOK(c, e) ==
            /\ ToldOf(c) \subseteq UNION {PfxSet(e.ans[j]) : j \in Idx(e.ans)}
            /\ \A j \in Idx(a.pfx) : StillValid(c, a.pfx[j], e.t1)
 
-AllPfx(e) == {<<k, j>> \in (Idx(e.ans) \X (1..64)) : j <= Len(e.ans[k].pfx)}
+AllPfx(e) == {<<k, j>> \in (Idx(e.ans) \X (1..256)) : j <= Len(e.ans[k].pfx)}
 
 TraceMsg ==
   /\ IsEvent("msg")
